@@ -10,6 +10,7 @@ Open Scope Z_scope.
 Record tcase := {
   t_barrier : bool;            (* barrier case: simultaneous requests for one id, round after round *)
   t_reqs : list bool; t_rounds : Z;
+  t_distinct : bool;           (* barrier: every requester has its own job id, all of the kind of the first request *)
   t_iscfg : bool;
   t_c : cfg;
   t_capF : Z; t_capI : Z;
@@ -62,7 +63,14 @@ Definition agree_raffle (c : tcase) : bool :=
 
 (** barrier: in the model any serving order of the requests grants the same number of tickets (Proofs: at most one);
     every round of the implementation must show exactly that number, and the accounting must be back afterwards *)
-Definition model_granted (c : tcase) : nat := grant_count 0 (t_reqs c) (r_init (t_capF c) (t_capI c)).
+Definition req_kind (c : tcase) : bool := match t_reqs c with f :: _ => f | [] => false end.
+Fixpoint zids (from : Z) (n : nat) : list Z := match n with O => [] | S m => from :: zids (from + 1) m end.
+Definition model_granted (c : tcase) : nat :=
+  if t_distinct c then grant_pool (req_kind c) (zids 0 (length (t_reqs c))) (r_init (t_capF c) (t_capI c))
+  else grant_count 0 (t_reqs c) (r_init (t_capF c) (t_capI c)).
+(** most tickets that may be held at once in a round *)
+Definition barrier_bound (c : tcase) : nat :=
+  if t_distinct c then Z.to_nat (if req_kind c then t_capF c else t_capI c) else 1%nat.
 
 Definition agree_barrier (c : tcase) : bool :=
   list_eqb Z.eqb (ob_hist c) (repeat 0 (model_granted c) ++ [t_rounds c])
@@ -95,9 +103,10 @@ Definition spec_raffle (c : tcase) : bool :=
   spec_log (t_capF c) (t_capI c) [] (ob_log c)
   && Z.eqb (ob_finalF c) (t_capF c) && Z.eqb (ob_finalI c) (t_capI c) && Z.eqb (ob_running c) 0.
 
-(** never two tickets for one job id at the same time; pools and running set back after every round *)
+(** never two tickets for one job id at the same time, never more tickets of a kind than its configured pool; pools and
+    running set back after every round *)
 Definition spec_barrier (c : tcase) : bool :=
-  forallb (Z.eqb 0) (skipn 2 (ob_hist c))
+  forallb (Z.eqb 0) (skipn (S (barrier_bound c)) (ob_hist c))
   && Z.eqb (ob_badacct c) 0
   && Z.eqb (ob_finalF c) (t_capF c) && Z.eqb (ob_finalI c) (t_capI c) && Z.eqb (ob_running c) 0.
 
